@@ -110,7 +110,9 @@ def evaluate(trace, M, labels, param, fw, res: Result, ox=0):
         # the two S atoms are DIFFERENT species (S2- and S0) sharing one element symbol
         sp_objs = [Species('Li', 1), Species('S', -2), Species('Li', 1), Species('S', 0), Species('P', 5)]
     traj = concretise.make_trajectory(coords, sp_objs, M, time_step=1e-15)
-    sites = concretise.make_sites(site_frac, labels, M)
+    # the site structure may carry its own cell (e.g. from a CIF): distances are those of the SIMULATION cell
+    Ms = M if (param + fw) % 2 == 0 else (M * 1.04) @ geom.rotation((12.0, 31.0, 47.0)).T
+    sites = concretise.make_sites(site_frac, labels, Ms)
     if not hop.change_log(trace):
         return
     try:
@@ -120,6 +122,13 @@ def evaluate(trace, M, labels, param, fw, res: Result, ox=0):
         return
     o, _ = hop.state_arrays(trace)
     real_states = np.asarray(tr.states).tolist()
+    # the site states (and everything derived from them) do not depend on the inner fraction
+    try:
+        tr_in = traj.transitions_between_sites(sites, 'Li', site_radius=R_SITE, site_inner_fraction=0.5)
+        if np.asarray(tr_in.states).tolist() != real_states:
+            res.violation('site-states-depend-on-the-inner-fraction', case, f'{np.asarray(tr_in.states).tolist()} vs {real_states}')
+    except Exception as e:  # noqa: BLE001
+        res.stats['inner_fraction_variant_raises'] += 1
     if real_states != o:
         # C02's business; the RDF oracle below is built from the states the real code reports, so that
         # this check does not depend on the site assignment being right
